@@ -65,6 +65,7 @@ type GuardEngine struct {
 	pv    *Prov
 	infos map[*ssa.Function]*fnInfo
 	Depth int
+	rootDepth int
 }
 
 func NewGuardEngine(p *Program, depth int) *GuardEngine {
@@ -419,6 +420,15 @@ func (ge *GuardEngine) calleeEnv(callee *ssa.Function, c *ssa.CallCommon, env *E
 				if _, isPtr := args[i].Type().Underlying().(*types.Pointer); isPtr {
 					ne.params[prm] = ge.writeRoot(args[i], env) // effect mode: pointers are bound to the object they point into
 					continue
+				}
+				// a (variadic) slice of pointers built from a local array: bind to the objects pointed into
+				if st, isSlice := args[i].Type().Underlying().(*types.Slice); isSlice {
+					if _, elemPtr := st.Elem().Underlying().(*types.Pointer); elemPtr {
+						if roots := ge.pointerArrayRoots(args[i], env); len(roots) > 0 {
+							ne.params[prm] = "ptrs(" + strings.Join(roots, "|") + ")"
+							continue
+						}
+					}
 				}
 			}
 			ne.params[prm] = ge.pv.Atom(args[i], env)
